@@ -3,6 +3,7 @@ package symx
 import (
 	"fmt"
 	"math/big"
+	"sort"
 	"strings"
 )
 
@@ -14,6 +15,7 @@ type Term struct {
 	Name string
 	str  string
 	nl   int8 // 0 unknown, 1 linear, 2 nonlinear
+	lf   *lin // canonical linear form (Op "lin" terms have only this)
 }
 
 var E18 = new(big.Int).Exp(big.NewInt(10), big.NewInt(18), nil)
@@ -29,82 +31,151 @@ func TBool(b bool) *Term {
 	return &Term{Op: "false"}
 }
 
-func Add(a, b *Term) *Term {
-	if a.IsK() && b.IsK() {
-		return K(new(big.Int).Add(a.Val, b.Val))
-	}
-	if a.IsK() && a.Val.Sign() == 0 {
-		return b
-	}
-	if b.IsK() && b.Val.Sign() == 0 {
-		return a
-	}
-	return &Term{Op: "+", Args: []*Term{a, b}}
+// ---- canonical linear normal form ----
+//
+// Every arithmetic term is kept as  c0 + c1*a1 + ... + cn*an  with the atoms a_i
+// (variables, products of non-constants, ite/div/mod/... terms) sorted by their
+// rendering and distinct. Sums therefore cancel syntactically ((s+q)-s = q) and
+// a*b and b*a are one atom, which is what lets ledger equalities over shared
+// sub-terms close without nonlinear reasoning.
+
+type lin struct {
+	c     *big.Int
+	atoms []*Term
+	coefs []*big.Int
 }
-func Sub(a, b *Term) *Term {
-	if a.IsK() && b.IsK() {
-		return K(new(big.Int).Sub(a.Val, b.Val))
+
+func linOf(t *Term) *lin {
+	if t.lf != nil {
+		return t.lf
 	}
-	if b.IsK() && b.Val.Sign() == 0 {
-		return a
+	var l *lin
+	switch t.Op {
+	case "const":
+		l = &lin{c: t.Val}
+	default:
+		l = &lin{c: new(big.Int), atoms: []*Term{t}, coefs: []*big.Int{big.NewInt(1)}}
 	}
-	return &Term{Op: "-", Args: []*Term{a, b}}
+	t.lf = l
+	return l
 }
-func Neg(a *Term) *Term {
-	if a.IsK() {
-		return K(new(big.Int).Neg(a.Val))
+
+func linCombine(x *lin, kx *big.Int, y *lin, ky *big.Int) *lin {
+	out := &lin{c: new(big.Int)}
+	out.c.Add(new(big.Int).Mul(x.c, kx), new(big.Int).Mul(y.c, ky))
+	i, j := 0, 0
+	push := func(a *Term, c *big.Int) {
+		if c.Sign() != 0 {
+			out.atoms = append(out.atoms, a)
+			out.coefs = append(out.coefs, c)
+		}
 	}
-	return &Term{Op: "neg", Args: []*Term{a}}
+	for i < len(x.atoms) || j < len(y.atoms) {
+		switch {
+		case j >= len(y.atoms):
+			push(x.atoms[i], new(big.Int).Mul(x.coefs[i], kx))
+			i++
+		case i >= len(x.atoms):
+			push(y.atoms[j], new(big.Int).Mul(y.coefs[j], ky))
+			j++
+		default:
+			sx, sy := x.atoms[i].String(), y.atoms[j].String()
+			switch {
+			case sx == sy:
+				c := new(big.Int).Mul(x.coefs[i], kx)
+				c.Add(c, new(big.Int).Mul(y.coefs[j], ky))
+				push(x.atoms[i], c)
+				i++
+				j++
+			case sx < sy:
+				push(x.atoms[i], new(big.Int).Mul(x.coefs[i], kx))
+				i++
+			default:
+				push(y.atoms[j], new(big.Int).Mul(y.coefs[j], ky))
+				j++
+			}
+		}
+	}
+	return out
 }
+
+func fromLin(l *lin) *Term {
+	if len(l.atoms) == 0 {
+		return K(l.c)
+	}
+	if len(l.atoms) == 1 && l.c.Sign() == 0 && l.coefs[0].Cmp(bigOne) == 0 {
+		return l.atoms[0]
+	}
+	t := &Term{Op: "lin", lf: l}
+	return t
+}
+
+var bigOne = big.NewInt(1)
+var bigMinusOne = big.NewInt(-1)
+
+func Add(a, b *Term) *Term { return fromLin(linCombine(linOf(a), bigOne, linOf(b), bigOne)) }
+func Sub(a, b *Term) *Term { return fromLin(linCombine(linOf(a), bigOne, linOf(b), bigMinusOne)) }
+func Neg(a *Term) *Term    { return fromLin(linCombine(linOf(a), bigMinusOne, &lin{c: new(big.Int)}, bigOne)) }
 func Mul(a, b *Term) *Term {
-	if a.IsK() && b.IsK() {
-		return K(new(big.Int).Mul(a.Val, b.Val))
+	la, lb := linOf(a), linOf(b)
+	if len(la.atoms) == 0 {
+		return fromLin(linCombine(lb, la.c, &lin{c: new(big.Int)}, bigOne))
 	}
-	if a.IsK() && a.Val.Cmp(big.NewInt(1)) == 0 {
-		return b
+	if len(lb.atoms) == 0 {
+		return fromLin(linCombine(la, lb.c, &lin{c: new(big.Int)}, bigOne))
 	}
-	if b.IsK() && b.Val.Cmp(big.NewInt(1)) == 0 {
-		return a
+	// pull constant factors out of single-atom operands: (k*x)*(m*y) = (k*m)*(x*y)
+	k := big.NewInt(1)
+	if len(la.atoms) == 1 && la.c.Sign() == 0 {
+		k.Mul(k, la.coefs[0])
+		a = la.atoms[0]
 	}
-	if (a.IsK() && a.Val.Sign() == 0) || (b.IsK() && b.Val.Sign() == 0) {
-		return KI(0)
+	if len(lb.atoms) == 1 && lb.c.Sign() == 0 {
+		k.Mul(k, lb.coefs[0])
+		b = lb.atoms[0]
 	}
-	return &Term{Op: "*", Args: []*Term{a, b}}
+	// flatten products and sort the factors (commutativity)
+	var fs []*Term
+	for _, f := range []*Term{a, b} {
+		if f.Op == "*" {
+			fs = append(fs, f.Args...)
+		} else {
+			fs = append(fs, f)
+		}
+	}
+	sort.SliceStable(fs, func(i, j int) bool { return fs[i].String() < fs[j].String() })
+	prod := &Term{Op: "*", Args: fs}
+	if k.Cmp(bigOne) == 0 {
+		return prod
+	}
+	return fromLin(&lin{c: new(big.Int), atoms: []*Term{prod}, coefs: []*big.Int{k}})
 }
 
 // DivE returns t/1e18 if t is syntactically a multiple of 1e18.
 func DivE(t *Term) (*Term, bool) {
-	switch t.Op {
-	case "const":
-		q, r := new(big.Int).QuoRem(t.Val, E18, new(big.Int))
-		if r.Sign() == 0 {
-			return K(q), true
-		}
-	case "*":
-		if q, ok := DivE(t.Args[0]); ok {
-			return Mul(q, t.Args[1]), true
-		}
-		if q, ok := DivE(t.Args[1]); ok {
-			return Mul(t.Args[0], q), true
-		}
-	case "+", "-":
-		q0, ok0 := DivE(t.Args[0])
-		q1, ok1 := DivE(t.Args[1])
-		if ok0 && ok1 {
-			if t.Op == "+" {
-				return Add(q0, q1), true
-			}
-			return Sub(q0, q1), true
-		}
-	case "neg":
-		if q, ok := DivE(t.Args[0]); ok {
-			return Neg(q), true
-		}
+	l := linOf(t)
+	q, r := new(big.Int).QuoRem(l.c, E18, new(big.Int))
+	if r.Sign() != 0 {
+		return nil, false
 	}
-	return nil, false
+	out := &lin{c: q}
+	for i, a := range l.atoms {
+		cq, cr := new(big.Int).QuoRem(l.coefs[i], E18, new(big.Int))
+		if cr.Sign() != 0 {
+			return nil, false
+		}
+		out.atoms = append(out.atoms, a)
+		out.coefs = append(out.coefs, cq)
+	}
+	return fromLin(out), true
 }
 
 func Cmp(op string, a, b *Term) *Term {
+	if !(a.IsK() && b.IsK()) {
+		if d := linCombine(linOf(a), bigOne, linOf(b), bigMinusOne); len(d.atoms) == 0 {
+			a, b = K(d.c), KI(0)
+		}
+	}
 	if a.IsK() && b.IsK() {
 		c := a.Val.Cmp(b.Val)
 		switch op {
@@ -186,6 +257,26 @@ func Eval(t *Term, env map[string]*big.Int) (*big.Int, error) {
 			return v, nil
 		}
 		return nil, fmt.Errorf("no value for %s", t.Name)
+	case "lin":
+		acc := new(big.Int).Set(t.lf.c)
+		for i, a := range t.lf.atoms {
+			v, err := Eval(a, env)
+			if err != nil {
+				return nil, err
+			}
+			acc.Add(acc, new(big.Int).Mul(v, t.lf.coefs[i]))
+		}
+		return acc, nil
+	case "*":
+		acc := big.NewInt(1)
+		for _, a := range t.Args {
+			v, err := Eval(a, env)
+			if err != nil {
+				return nil, err
+			}
+			acc = new(big.Int).Mul(acc, v)
+		}
+		return acc, nil
 	}
 	args := make([]*big.Int, len(t.Args))
 	for i, a := range t.Args {
@@ -272,6 +363,26 @@ func (t *Term) String() string {
 
 func (t *Term) render() string {
 	switch t.Op {
+	case "lin":
+		var parts []string
+		for i, a := range t.lf.atoms {
+			c := t.lf.coefs[i]
+			switch {
+			case c.Cmp(bigOne) == 0:
+				parts = append(parts, a.String())
+			case c.Cmp(bigMinusOne) == 0:
+				parts = append(parts, "(- "+a.String()+")")
+			default:
+				parts = append(parts, "(* "+K(c).String()+" "+a.String()+")")
+			}
+		}
+		if t.lf.c.Sign() != 0 {
+			parts = append(parts, K(t.lf.c).String())
+		}
+		if len(parts) == 1 {
+			return parts[0]
+		}
+		return "(+ " + strings.Join(parts, " ") + ")"
 	case "be8": // byte Val (0 = most significant) of the 8-byte big-endian encoding of Args[0]
 		p := new(big.Int).Lsh(big.NewInt(1), uint(8*(7-t.Val.Int64())))
 		return "(mod (div " + t.Args[0].String() + " " + p.String() + ") 256)"
@@ -307,8 +418,20 @@ func (t *Term) Nonlinear() bool {
 	}
 	r := false
 	switch t.Op {
+	case "lin":
+		for _, a := range t.lf.atoms {
+			if a.Nonlinear() {
+				r = true
+			}
+		}
 	case "*":
-		if !t.Args[0].IsK() && !t.Args[1].IsK() {
+		n := 0
+		for _, a := range t.Args {
+			if !a.IsK() {
+				n++
+			}
+		}
+		if n >= 2 {
 			r = true
 		}
 	case "div", "mod", "tdiv", "rhe", "cdiv":
